@@ -396,8 +396,16 @@ def dump(reader, idx, schema, rng=None, maxterms=40, columns=True, vectors=True,
         guard("absent", lambda f=f: obs.append({"kind": "absent" if (f, u"cccc") not in reader else "flag", "f": f,
                                                 "t": [3, 3, 3, 3], "value": False}))
         for dn in live:
-            guard("fieldlen", lambda f=f, dn=dn: obs.append({"kind": "fieldlen", "f": f, "d": dn,
-                                                             "n": int(reader.doc_field_length(dn, f))}))
+            # (lengths are stored in one byte: exact up to 10, approximate beyond - only the exact ones are judged
+            # against the token count; the collection totals below are judged against the lengths as reported)
+            if len([t for t in idx["docs"][dn]["t"].get(f, []) if t != [0]]) <= 10:
+                guard("fieldlen", lambda f=f, dn=dn: obs.append({"kind": "fieldlen", "f": f, "d": dn,
+                                                                 "n": int(reader.doc_field_length(dn, f))}))
+        if f in schema.names() and getattr(schema[f], "scorable", False):
+            guard("totals", lambda f=f: obs.append({
+                "kind": "totals", "f": f, "total": int(reader.field_length(f)), "minlen": int(reader.min_field_length(f)),
+                "maxlen": int(reader.max_field_length(f)), "nodel": not reader.has_deletions(),
+                "lens": [[dn, int(reader.doc_field_length(dn, f))] for dn in live]}))
     # the posting weights of an existence-only field (ID: no frequency is stored, the weight is the boost)
     if "key" in schema.names() and schema["key"].indexed:
         def idw():
